@@ -126,8 +126,9 @@ theorem foldlM_congr {α β : Type} (f g : β → α → Except Err β) (l : Lis
     | error e => rfl
     | ok b => exact ih (fun acc y hy => h acc y (List.mem_cons_of_mem _ hy)) b
 
-theorem applyFuel_eq (cat : Catalog) : ∀ (n m : Nat) (q : Q), size q < n → size q < m →
-    applyFuel cat n q = applyFuel cat m q := by
+/-- generic in the leaf oracle -/
+theorem applyFuelL_eq (L : Leaves) : ∀ (n m : Nat) (q : Q), size q < n → size q < m →
+    applyFuelL L n q = applyFuelL L m q := by
   intro n
   induction n with
   | zero => intro m q h; omega
@@ -140,7 +141,7 @@ theorem applyFuel_eq (cat : Catalog) : ∀ (n m : Nat) (q : Q), size q < n → s
       | cmp c i v => rfl
       | range neg i lo hi el eh => rfl
       | not q =>
-        simp only [applyFuel]
+        simp only [applyFuelL]
         simp only [size] at hn hm
         have := size_negate_le q
         exact ih m (negate q) (by omega) (by omega)
@@ -148,10 +149,10 @@ theorem applyFuel_eq (cat : Catalog) : ∀ (n m : Nat) (q : Q), size q < n → s
         cases qs with
         | nil => rfl
         | cons q0 rest =>
-          simp only [applyFuel]
+          simp only [applyFuelL]
           simp only [size, sizeList] at hn hm
           rw [ih m q0 (by omega) (by omega)]
-          cases applyFuel cat m q0 with
+          cases applyFuelL L m q0 with
           | error e => rfl
           | ok r0 =>
             simp only [bind, Except.bind]
@@ -163,10 +164,10 @@ theorem applyFuel_eq (cat : Catalog) : ∀ (n m : Nat) (q : Q), size q < n → s
         cases qs with
         | nil => rfl
         | cons q0 rest =>
-          simp only [applyFuel]
+          simp only [applyFuelL]
           simp only [size, sizeList] at hn hm
           rw [ih m q0 (by omega) (by omega)]
-          cases applyFuel cat m q0 with
+          cases applyFuelL L m q0 with
           | error e => rfl
           | ok r0 =>
             simp only [bind, Except.bind]
@@ -174,6 +175,73 @@ theorem applyFuel_eq (cat : Catalog) : ∀ (n m : Nat) (q : Q), size q < n → s
             intro acc x hx
             have := size_le_sizeList hx
             rw [ih m x (by omega) (by omega)]
+
+theorem applyFuelL_applyQL (L : Leaves) (n : Nat) (q : Q) (h : size q < n) :
+    applyFuelL L n q = applyQL L q :=
+  applyFuelL_eq L n (size q + 1) q h (by omega)
+
+/-- the loop body of `And._apply` -/
+def andBodyL (L : Leaves) (result : IdSet) (q : Q) : Except Err IdSet :=
+  if result.length = 0 then pure [] else do
+    let right ← applyQL L q
+    pure (intersect result right)
+
+/-- the loop body of `Or._apply` -/
+def orBodyL (L : Leaves) (result : IdSet) (q : Q) : Except Err IdSet := do
+  let right ← applyQL L q
+  pure (union result right)
+
+/-- unfolding equations of `_apply` in terms of `applyQL` itself -/
+theorem applyQL_not (L : Leaves) (q : Q) : applyQL L (.not q) = applyQL L (negate q) := by
+  have h := size_negate_le q
+  show applyFuelL L (size (.not q) + 1) (.not q) = applyFuelL L (size (negate q) + 1) (negate q)
+  simp only [size, applyFuelL]
+  exact applyFuelL_eq L (1 + size q) (size (negate q) + 1) (negate q) (by omega) (by omega)
+
+theorem applyQL_and (L : Leaves) (q0 : Q) (rest : List Q) :
+    applyQL L (.and (q0 :: rest)) = (applyQL L q0 >>= fun r0 => rest.foldlM (andBodyL L) r0) := by
+  show applyFuelL L (size (.and (q0 :: rest)) + 1) (.and (q0 :: rest)) = _
+  simp only [applyFuelL, size, sizeList]
+  rw [applyFuelL_applyQL L _ q0 (by omega)]
+  cases applyQL L q0 with
+  | error e => rfl
+  | ok r0 =>
+    simp only [bind, Except.bind]
+    apply foldlM_congr
+    intro acc x hx
+    have := size_le_sizeList hx
+    unfold andBodyL
+    rw [applyFuelL_applyQL L _ x (by omega)]
+    rfl
+
+theorem applyQL_or (L : Leaves) (q0 : Q) (rest : List Q) :
+    applyQL L (.or (q0 :: rest)) = (applyQL L q0 >>= fun r0 => rest.foldlM (orBodyL L) r0) := by
+  show applyFuelL L (size (.or (q0 :: rest)) + 1) (.or (q0 :: rest)) = _
+  simp only [applyFuelL, size, sizeList]
+  rw [applyFuelL_applyQL L _ q0 (by omega)]
+  cases applyQL L q0 with
+  | error e => rfl
+  | ok r0 =>
+    simp only [bind, Except.bind]
+    apply foldlM_congr
+    intro acc x hx
+    have := size_le_sizeList hx
+    unfold orBodyL
+    rw [applyFuelL_applyQL L _ x (by omega)]
+    rfl
+
+theorem applyQL_and_nil (L : Leaves) : applyQL L (.and []) = .error .indexError := rfl
+theorem applyQL_or_nil (L : Leaves) : applyQL L (.or []) = .error .indexError := rfl
+theorem applyQL_cmp (L : Leaves) (c : Cmp) (i : Nat) (v : Val) : applyQL L (.cmp c i v) = L.cmp c i v := rfl
+theorem applyQL_range (L : Leaves) (neg : Bool) (i : Nat) (lo hi : Int) (el eh : Bool) :
+    applyQL L (.range neg i lo hi el eh) = L.range neg i lo hi el eh := rfl
+
+/-! the instance with specification-level leaves (`applyQ cat = applyQL (specLeaves cat)`) -/
+
+theorem applyQ_eq_applyQL (cat : Catalog) (q : Q) : applyQ cat q = applyQL (specLeaves cat) q := rfl
+
+theorem applyFuel_eq (cat : Catalog) : ∀ (n m : Nat) (q : Q), size q < n → size q < m →
+    applyFuel cat n q = applyFuel cat m q := applyFuelL_eq (specLeaves cat)
 
 theorem applyFuel_applyQ (cat : Catalog) (n : Nat) (q : Q) (h : size q < n) :
     applyFuel cat n q = applyQ cat q :=
@@ -190,44 +258,16 @@ def orBody (cat : Catalog) (result : IdSet) (q : Q) : Except Err IdSet := do
   let right ← applyQ cat q
   pure (union result right)
 
-/-- unfolding equations of `_apply` in terms of `applyQ` itself -/
-theorem applyQ_not (cat : Catalog) (q : Q) : applyQ cat (.not q) = applyQ cat (negate q) := by
-  have h := size_negate_le q
-  show applyFuel cat (size (.not q) + 1) (.not q) = applyFuel cat (size (negate q) + 1) (negate q)
-  simp only [size, applyFuel]
-  exact applyFuel_eq cat (1 + size q) (size (negate q) + 1) (negate q) (by omega) (by omega)
+theorem applyQ_not (cat : Catalog) (q : Q) : applyQ cat (.not q) = applyQ cat (negate q) :=
+  applyQL_not (specLeaves cat) q
 
 theorem applyQ_and (cat : Catalog) (q0 : Q) (rest : List Q) :
-    applyQ cat (.and (q0 :: rest)) = (applyQ cat q0 >>= fun r0 => rest.foldlM (andBody cat) r0) := by
-  show applyFuel cat (size (.and (q0 :: rest)) + 1) (.and (q0 :: rest)) = _
-  simp only [applyFuel, size, sizeList]
-  rw [applyFuel_applyQ cat _ q0 (by omega)]
-  cases applyQ cat q0 with
-  | error e => rfl
-  | ok r0 =>
-    simp only [bind, Except.bind]
-    apply foldlM_congr
-    intro acc x hx
-    have := size_le_sizeList hx
-    unfold andBody
-    rw [applyFuel_applyQ cat _ x (by omega)]
-    rfl
+    applyQ cat (.and (q0 :: rest)) = (applyQ cat q0 >>= fun r0 => rest.foldlM (andBody cat) r0) :=
+  applyQL_and (specLeaves cat) q0 rest
 
 theorem applyQ_or (cat : Catalog) (q0 : Q) (rest : List Q) :
-    applyQ cat (.or (q0 :: rest)) = (applyQ cat q0 >>= fun r0 => rest.foldlM (orBody cat) r0) := by
-  show applyFuel cat (size (.or (q0 :: rest)) + 1) (.or (q0 :: rest)) = _
-  simp only [applyFuel, size, sizeList]
-  rw [applyFuel_applyQ cat _ q0 (by omega)]
-  cases applyQ cat q0 with
-  | error e => rfl
-  | ok r0 =>
-    simp only [bind, Except.bind]
-    apply foldlM_congr
-    intro acc x hx
-    have := size_le_sizeList hx
-    unfold orBody
-    rw [applyFuel_applyQ cat _ x (by omega)]
-    rfl
+    applyQ cat (.or (q0 :: rest)) = (applyQ cat q0 >>= fun r0 => rest.foldlM (orBody cat) r0) :=
+  applyQL_or (specLeaves cat) q0 rest
 
 theorem applyQ_cmp (cat : Catalog) (c : Cmp) (i : Nat) (v : Val) :
     applyQ cat (.cmp c i v) = applyCmp cat c i v := rfl
